@@ -101,7 +101,8 @@ Definition check_case (c : helper * text * text * answer) : bool :=
   | HShrink br lens =>
       let acc := fun ls : list text =>
         (negb br || negb (blank (join_nl ls))) && existsb (Nat.eqb (List.length ls)) lens in
-      match shrink_fuel acc (List.length (split_nl s)) (split_nl s), a with
+      let lines := cap_lines c_max_multi_step_lines (split_nl s) in
+      match shrink_fuel acc (List.length lines) lines, a with
       | Some o, AOutcome o' => outcome_eqb o o'
       | _, _ => false
       end
